@@ -65,6 +65,11 @@ def random_configs(tier, rng):
         for single in (True, False):
             out.append((dict(D=2, lmin=1, lmax=2, version=0, nrbe=1, single=single, peak=peak, maxleaves=80,
                              name='natural peak %s single=%s' % (peak, single)), 6 if tier == 'quick' else 9))
+    # domain bounds handed over as integers (midpoints of later splits are not integers)
+    for (a, b, D, kw) in [([0, 0], [4, 4], 2, dict(nrbe=2)), ([-1, -1, -1], [1, 1, 1], 3, dict()), ([0, 0], [8, 8], 2, dict(auto=True)), ([-2, 0], [2, 1], 2, dict(version=2))]:
+        c = dict(D=D, lmin=1, lmax=2, version=0, nrbe=1, a=[float(x) for x in a], b=[float(x) for x in b], int_domain=True, maxleaves=60, name='integer domain %s-%s %s' % (a, b, kw))
+        c.update(kw)
+        out.append((c, 5 if D == 2 else 3))
     if tier == 'thorough':
         for version in (0, 1, 2):
             out.append((dict(D=3, lmin=1, lmax=2, version=version, nrbe=1, chain=rng.randint(0, 7), maxleaves=80, name='corner chain 3D v%d' % version), 5))
